@@ -346,6 +346,12 @@ func genAction(t *rapid.T) Action {
 		return Action{K: "nreg", Adj: adj, Incr: incr, F: []ops.F32{ops.F32(float32(rapid.IntRange(-64, 192).Draw(t, "f")) / 64)}}
 	case 7:
 		a := Action{K: "lod", F: []ops.F32{ops.F32(rapid.SampledFrom([]int{0, 0, 0, 16, 64}).Draw(t, "lod0")), ops.F32(rapid.SampledFrom([]int{1000, 1000, 64, 65, 1 << 14}).Draw(t, "lod1"))}}
+		if rapid.IntRange(0, 2).Draw(t, "lodfrac") == 0 {
+			// bounds that are not whole numbers, a fraction of a pixel below or above the heights
+			// the cases render at (16, 64, 77)
+			a.F[0] = ops.F32(rapid.SampledFrom([]float32{0, 0.5, 15.5, 16.25, 63.75, 64.5, 76.25}).Draw(t, "lod0f"))
+			a.F[1] = ops.F32(rapid.SampledFrom([]float32{1000.5, 16.25, 15.75, 64.25, 63.5, 64.75, 77.25, 76.5}).Draw(t, "lod1f"))
+		}
 		if rapid.IntRange(0, 4).Draw(t, "lodinf") == 0 {
 			a.F[1] = ops.F32(float32(math.Inf(1))) // the default upper bound: how a graphic goes back to "always"
 		}
